@@ -37,6 +37,9 @@ TEXT = {
     "C10": dict(technique="fuzzing: rapid byte-level generation in the quick tier, native coverage-guided go fuzzing (5 targets) in the thorough tier; oracle = returns normally or with a permitted error, no panic, 30 s watchdog",
                 text="Arbitrary bytes (corpus-seeded, mutated, hostile fragments) as pattern / input / replacement, all 2^9 option subsets, compile options incl. tiny stack limits, out-of-range start offsets and counts, driven through Compile/MustCompile, all match calls with full iteration, Replace/ReplaceFunc/Split, 22 adapter methods and Escape/Unescape. A process-killing failure (out of memory, fatal error) is reported with the case that was running.",
                 note="Every Regexp gets MatchTimeout=100ms so exponential matching is a permitted error; hang = no return within 30 s on <=64-byte patterns and <=256-byte inputs. Native fuzz campaigns are not seed-reproducible; crashers are.", ref="§6 C10"),
+    "C16": dict(technique="property-based testing (rapid): independent set-algebra evaluator over a class AST vs seven lookup paths",
+                text="Random class grammar (ranges, negation, nested subtraction, shorthands, \\p{..}, POSIX names) x {IgnoreCase, ECMAScript, RE2} x bitmap on/off x rune domain exhaustive over U+0000-U+024F plus endpoints, boundaries and samples (thorough: all 1,114,112 code points through the parsed set): CharIn of the parsed set and MatchRunes of \\A[..]\\z, [..]+ and x*[..] must equal the oracle.",
+                note="Category/script tables are Go's (shared trusted base). IgnoreCase domain restricted exactly as the property states.", ref="§6 C16"),
 }
 
 PENDING = "check not built yet in this session (work in progress; see DESIGN.md section 6 for the planned generated-input check)"
